@@ -39,6 +39,7 @@ type World struct {
 	Opts      WorldOpts
 	BlockTime time.Duration
 	OnRestart func(n *Node)
+	SyncMon   *SyncMonitor
 }
 
 type p2pPeerID = p2p.PeerID
